@@ -21,8 +21,8 @@ fn program() -> &'static ObjectFile {
 #[derive(Clone)]
 struct Rec { log: Arc<Mutex<Vec<(bool, u16)>>> }
 impl ExternalDevice for Rec {
-    fn io_read(&mut self, a: u16, e: bool) -> Option<u16> { if e { self.log.lock().unwrap().push((false, a)); } Some(0x7E57) }
-    fn io_write(&mut self, a: u16, _: u16) -> bool { self.log.lock().unwrap().push((true, a)); true }
+    fn io_read(&mut self, a: u16, e: bool) -> Option<u16> { if e { self.log.lock().unwrap_or_else(|e| e.into_inner()).push((false, a)); } Some(0x7E57) }
+    fn io_write(&mut self, a: u16, _: u16) -> bool { self.log.lock().unwrap_or_else(|e| e.into_inner()).push((true, a)); true }
     fn io_reset(&mut self) {}
     fn poll_interrupt(&mut self) -> Option<Interrupt> { None }
 }
@@ -49,14 +49,14 @@ fn apply(w: &mut World, op: Op) -> Result<(), (String, String)> {
         Op::BpRemovePc => { w.sim.breakpoints.remove(&Breakpoint::PC(0x3002)); }
         Op::AddDev => { if w.sim.device_handler.add_device(Rec { log: w.rec_log.clone() }, &[0xFE20]).is_ok() { w.rec_attached = true; } }
         Op::RemoveDev3 => { w.sim.device_handler.remove_device(3); }
-        Op::SetKb => { let kb = BufferedKeyboard::default(); kb.get_buffer().write().unwrap().extend(b"xy"); w.sim.device_handler.set_keyboard(kb.clone()); w.kb = Some(kb); }
+        Op::SetKb => { let kb = BufferedKeyboard::default(); kb.get_buffer().write().unwrap_or_else(|e| e.into_inner()).extend(b"xy"); w.sim.device_handler.set_keyboard(kb.clone()); w.kb = Some(kb); }
         Op::SetDisp => { w.sim.device_handler.set_display(BufferedDisplay::default()); }
         Op::MmapPc => { if w.sim.mmap_internal(0xFE32, InternalRegister::PC).is_ok() { w.pc_mapped = true; } }
         Op::MunmapPc => { if w.sim.munmap_internal(0xFE32) { w.pc_mapped = false; } }
         Op::WriteReg => { w.sim.reg_file[reg(2)].set(0xBEEF); }
         Op::WriteMem => { w.sim.mem[0x5000].set(0xCAFE); w.sim.mem[0x0200].set(0xF025); w.touched.extend([0x5000, 0x0200]); }
         Op::WritePsr => { let _ = w.sim.write_mem(0xFFFC, Word::new_init(0x0401), MemAccessCtx::omnipotent()); let _ = w.sim.write_mem(SSP_PORT, Word::new_init(0x2222), MemAccessCtx::omnipotent()); }
-        Op::TypeKey => { if let Some(kb) = &w.kb { kb.get_buffer().write().unwrap().push_back(b'k'); } }
+        Op::TypeKey => { if let Some(kb) = &w.kb { kb.get_buffer().write().unwrap_or_else(|e| e.into_inner()).push_back(b'k'); } }
         Op::MunmapPsr => { if w.sim.munmap_internal(0xFFFC) { w.psr_mapped = false; } }
         Op::MunmapMcr => { if w.sim.munmap_internal(0xFFFE) { w.mcr_mapped = false; } }
         // the initialization strategy is a public flag like the others: switch between two deterministic strategies
@@ -110,10 +110,10 @@ fn reset_and_check(w: &mut World) -> Result<(), (String, String)> {
     // ---- mappings and devices still answer
     if pc_mapped { let v = w.sim.read_mem(0xFE32, MemAccessCtx::omnipotent()).map(|x| x.get()).unwrap_or(0); if v != w.sim.pc { return Err(("internal-mapping-lost".into(), format!("PC mapping at xFE32 answers x{v:04X}, PC is x{:04X}", w.sim.pc))); } }
     if w.rec_attached && format!("{:?}", w.sim.device_handler).contains("Custom") {
-        let n0 = w.rec_log.lock().unwrap().len();
+        let n0 = w.rec_log.lock().unwrap_or_else(|e| e.into_inner()).len();
         let ctx = MemAccessCtx { privileged: true, strict: false, io_effects: true, track_access: false };
         let owned = w.sim.read_mem(0xFE20, ctx).map(|x| x.get()).unwrap_or(0);
-        let n1 = w.rec_log.lock().unwrap().len();
+        let n1 = w.rec_log.lock().unwrap_or_else(|e| e.into_inner()).len();
         // the device may have been removed by RemoveDev3 (then nothing answers): judged through the handler's unchanged Debug above; here only: if it answers, the call reached it
         if owned == 0x7E57 && n1 != n0 + 1 { return Err(("device-dispatch".into(), "read at xFE20 answered without reaching the recording device".into())); }
     }
@@ -129,7 +129,7 @@ fn fingerprint(w: &mut World) -> u64 {
     h = mix(h, w.sim.frame_stack.len() << 8 | (w.sim.frame_stack.frames().is_some() as u64) << 4 | (w.sim.hit_halt() as u64) << 1 | w.sim.hit_breakpoint() as u64);
     for a in device_answers(w) { h = mix(h, a as u64); }
     for a in [0x3000u16, 0x3005, 0x300B, 0x300C, 0x300D, 0x3FFF, 0x5000, 0x0200, 0x2FFF, 0x2FFE, 0x2FFD] { h = mix(h, w.sim.mem[a].get() as u64 | (w.sim.mem[a].is_init() as u64) << 16); }
-    if let Some(kb) = &w.kb { h = mix(h, kb.get_buffer().read().unwrap().len() as u64 + 77); }
+    if let Some(kb) = &w.kb { h = mix(h, kb.get_buffer().read().unwrap_or_else(|e| e.into_inner()).len() as u64 + 77); }
     // reference-side state
     mix(h, (w.rec_attached as u64) | (w.pc_mapped as u64) << 1 | (w.psr_mapped as u64) << 2 | (w.mcr_mapped as u64) << 3)
 }
